@@ -695,3 +695,66 @@ pub fn run_tty_env(exe: &Path, args: &[&str], env: &[(String, String)], stdin_da
     use std::os::unix::process::ExitStatusExt;
     Some(CliOut { code: status.code(), signal: status.signal(), stdout, stderr, timed_out: false, hang: None, ambient: vec![], stdin_kind: if stdin_tty { "terminal" } else { "pipe" } })
 }
+
+/// All three standard streams on pseudo-terminals (one for input, one for output, one for error so that the two
+/// outputs stay apart); nothing is typed, the input terminal just stays open until the run ends. 120 s wall limit
+/// (a 3-digit vanity search may run here). Returns None when the terminals cannot be set up or the run does not end.
+pub fn run_all_tty(exe: &Path, args: &[&str]) -> Option<CliOut> {
+    use std::os::fd::{FromRawFd, OwnedFd};
+    unsafe fn open_pty() -> Option<(OwnedFd, OwnedFd)> {
+        let (mut m, mut s) = (0, 0);
+        if libc::openpty(&mut m, &mut s, std::ptr::null_mut(), std::ptr::null_mut(), std::ptr::null_mut()) != 0 {
+            return None;
+        }
+        let mut t: libc::termios = std::mem::zeroed();
+        if libc::tcgetattr(s, &mut t) == 0 {
+            t.c_oflag &= !libc::OPOST;
+            t.c_lflag &= !(libc::ECHO | libc::ECHOE | libc::ECHOK | libc::ECHONL);
+            libc::tcsetattr(s, libc::TCSANOW, &t);
+        }
+        Some((OwnedFd::from_raw_fd(m), OwnedFd::from_raw_fd(s)))
+    }
+    let (in_m, in_s) = unsafe { open_pty() }?;
+    let (out_m, out_s) = unsafe { open_pty() }?;
+    let (err_m, err_s) = unsafe { open_pty() }?;
+    let mut cmd = Command::new(exe);
+    cmd.args(args).env_clear().env("RUST_BACKTRACE", "0").env("TERM", "xterm-256color").env("COLUMNS", "80").env("LINES", "24");
+    cmd.stdin(Stdio::from(in_s)).stdout(Stdio::from(out_s)).stderr(Stdio::from(err_s));
+    let mut child = cmd.spawn().ok()?;
+    drop(cmd);
+    let read_all = |m: OwnedFd| {
+        std::thread::spawn(move || {
+            use std::io::Read;
+            let mut f = std::fs::File::from(m);
+            let mut out = vec![];
+            let mut buf = [0u8; 65536];
+            loop {
+                match f.read(&mut buf) {
+                    Ok(0) | Err(_) => break,
+                    Ok(n) => out.extend_from_slice(&buf[..n]),
+                }
+            }
+            out
+        })
+    };
+    let (ro, re) = (read_all(out_m), read_all(err_m));
+    let start = Instant::now();
+    let status = loop {
+        match child.try_wait() {
+            Ok(Some(s)) => break Some(s),
+            Ok(None) if start.elapsed() > Duration::from_secs(120) => {
+                let _ = child.kill();
+                let _ = child.wait();
+                break None;
+            }
+            Ok(None) => std::thread::sleep(Duration::from_millis(5)),
+            Err(_) => break None,
+        }
+    };
+    drop(in_m);
+    let stdout = ro.join().ok()?;
+    let stderr = re.join().ok()?;
+    let status = status?;
+    use std::os::unix::process::ExitStatusExt;
+    Some(CliOut { code: status.code(), signal: status.signal(), stdout, stderr, timed_out: false, hang: None, ambient: vec![], stdin_kind: "terminal" })
+}
